@@ -608,7 +608,20 @@ pub fn exec(case: &Case) -> Outcome {
                     None => false,
                 }
             };
-            let all_d2 = lost.iter().all(|r| covered_by_foreign_mark(r) || taken_by_failed_flush.contains(*r));
+            // The recorded defect is one of the *live* flush path: the mark a flush persists is
+            // last_wal_seq at its end, which covers writes appended - by this same process - while or
+            // before the flush ran.  The covering flush and the row's append therefore lie in the
+            // same process lifetime.  A mark that a later process' recovery persisted over an entry
+            // it had merely replayed into its buffer is explained by nothing recorded.
+            let restart_positions: Vec<u64> = world.restarts_seen.iter().map(|r| r.log_pos).collect();
+            let covered_in_its_own_lifetime = |row: &String| -> bool {
+                let (a, sq) = match (append_id(row), seq_of(row)) {
+                    (Some(a), Some(sq)) => (a, sq),
+                    _ => return false,
+                };
+                truncs.iter().any(|(t, mark)| *t > a && *mark >= sq && !restart_positions.iter().any(|p| *p > a && *p <= *t))
+            };
+            let all_d2 = lost.iter().all(|r| (covered_by_foreign_mark(r) && covered_in_its_own_lifetime(r)) || taken_by_failed_flush.contains(*r));
             // Both known classes presuppose the order "chunk registered, then WAL truncated / mark
             // persisted" within a flush: at the arrival of the n-th after_truncate pause at least n
             // registrations have taken effect.  A history in which the WAL was truncated ahead of
